@@ -803,13 +803,167 @@ FAMILIES_THOROUGH = [('base1', 16), ('near1', 2), ('base2', 64), ('cross', 2), (
                      ('trunc2', 8), ('garbage', 8), ('bytes2', 16), ('len2', 64), ('double1', 8), ('double2', 24)]
 
 
+# ---------------------------------------------------------------------------- two connections at once
+
+class GSock(object):
+    """A connection whose bytes arrive in two segments; recv_into() blocks (yields to the hub) while nothing is buffered."""
+
+    def __init__(self, name):
+        import gevent.event
+        self.name = name
+        self.buf = bytearray()
+        self.eof = False
+        self.ev = gevent.event.Event()
+        self.pos = 0
+        self.calls = 0
+        self.addr = None
+        self.at_call = None
+        self.payload = None
+
+    def deliver(self, data, last):
+        self.buf += data
+        self.eof = last
+        self.ev.set()
+
+    def fileno(self):
+        return -1
+
+    def getpeername(self):
+        return ('192.0.2.1', 4321)
+
+    def _wait(self):
+        while not self.buf and not self.eof:
+            self.ev.clear()
+            self.ev.wait()
+
+    def recv_into(self, view, nbytes=0, flags=0):
+        if not nbytes:
+            nbytes = len(view)
+        self._wait()
+        k = min(nbytes, len(self.buf))
+        view[0:k] = self.buf[:k]
+        del self.buf[:k]
+        self.pos += k
+        return k
+
+    def recv(self, n, flags=0):
+        self._wait()
+        k = min(n, len(self.buf))
+        out = bytes(self.buf[:k])
+        del self.buf[:k]
+        self.pos += k
+        return out
+
+    def close(self):
+        pass
+
+    def enter_handler(self, addr):
+        self.calls += 1
+        if self.calls == 1:
+            self.addr = addr
+            self.at_call = self.pos
+            chunks = []
+            while True:
+                c = self.recv(65536)
+                if not c:
+                    break
+                chunks.append(c)
+            self.payload = b''.join(chunks)
+
+
+PAIR_STREAMS = [
+    b'PROXY TCP4 10.1.2.3 10.4.5.6 1111 25\r\nEHLO a\r\n',
+    b'PROXY TCP6 ::1 fe80::2 65535 1\r\nQUIT\r\n',
+    b'\r\n\r\n\x00\r\nQUIT\n' + b'\x21\x11\x00\x0c' + bytes([192, 0, 2, 7, 198, 51, 100, 9, 0x30, 0x39, 0, 25]) + b'MAIL',
+    b'PROXY UNKNOWN\r\nDATA\r\n',
+]
+
+
+def run_pair(mixin, sa, ca, sb, cb, ch):
+    """both connections handled by the same edge object; the order in which the four segments arrive is explored"""
+    import gevent
+    from engine.vloop import World
+    obs = {}
+    with World(ch, max_steps=2000) as w:
+        edge = get_edge(mixin)
+        socks = {'A': GSock('A'), 'B': GSock('B')}
+        segs = {'A': [sa[:ca], sa[ca:]], 'B': [sb[:cb], sb[cb:]]}
+
+        def serve(name):
+            sock = socks[name]
+            try:
+                edge.handle(sock, ('192.0.2.1', 4321))
+            except gevent.GreenletExit:
+                raise
+            except BaseException as e:
+                obs[name] = ('exc', type(e).__name__, str(e)[:120])
+                return
+            obs[name] = ('called', sock.addr, sock.at_call, sock.payload, sock.calls) if sock.calls else ('dropped', sock.pos)
+        for name in ('A', 'B'):
+            gevent.spawn(serve, name)
+
+        def deliver(name, i):
+            def fire():
+                socks[name].deliver(segs[name][i], i == 1)
+                if i == 0:
+                    w.add_event('%s2' % name, deliver(name, 1))
+            return fire
+        w.add_event('A1', deliver('A', 0))
+        w.add_event('B1', deliver('B', 0))
+        w.run_until_quiescent()
+    return obs.get('A', ('blocked',)), obs.get('B', ('blocked',))
+
+
+def check_pairs(res, mixin, ia, ib, cuts):
+    sa, sb = PAIR_STREAMS[ia], PAIR_STREAMS[ib]
+    solo = {}
+    for name, st in (('A', sa), ('B', sb)):
+        o, _ = execute(mixin, st, Chooser(), NOLIMIT, False, False)
+        solo[name] = o[:5]
+    for ca in cuts:
+        for cb in cuts:
+            if ca >= len(sa) or cb >= len(sb):
+                continue
+            seen = []
+
+            def run(ch):
+                oa, ob = run_pair(mixin, sa, ca, sb, cb, ch)
+                seen.append((tuple(ch.choices), oa, ob))
+                return (oa, ob)
+            st = explore(run, d=8, dd=None, merge=False, max_exec=50)
+            res.evaluations += st.executions
+            res.count('concurrent_pair_executions', st.executions)
+            res.interesting(('pair', mixin, ia, ib, ca, cb))
+            for choices, oa, ob in seen:
+                res.outcome(('pair', mixin, oa[:2], ob[:2]))
+                for name, o in (('A', oa), ('B', ob)):
+                    if tuple(o[:5]) != tuple(solo[name]):
+                        res.violation({'kind': 'connection-disturbed-by-another', 'mixin': mixin},
+                                      'mixin=%s: connection %s (%r, first segment %d bytes) handled while another connection (%r, first segment %d bytes) '
+                                      'was being read: got %r, alone it gives %r; delivery order choices %r'
+                                      % (mixin, name, (sa if name == 'A' else sb)[:60], ca if name == 'A' else cb, (sb if name == 'A' else sa)[:60],
+                                         cb if name == 'A' else ca, o, solo[name], list(choices)),
+                                      {'pair': [mixin, ia, ib, ca, cb], 'choices': list(choices)})
+                        return
+
+
 def configs(tier, seed):
     fams = FAMILIES_QUICK if tier == 'quick' else FAMILIES_THOROUGH
-    return [{'family': f, 'part': k, 'of': n} for f, n in fams for k in range(n)]
+    cfgs = [{'family': f, 'part': k, 'of': n} for f, n in fams for k in range(n)]
+    for mx in ('auto', 'v1', 'v2'):
+        for ia in range(len(PAIR_STREAMS)):
+            cfgs.append({'pairs': mx, 'ia': ia})
+    return cfgs
 
 
 def run_config(cfg, tier, seed):
     res = Result(max_samples=2)
+    if 'pairs' in cfg:
+        cuts = (1, 3, 5, 7, 8, 11) if tier == 'quick' else tuple(range(1, 17))
+        for ib in range(len(PAIR_STREAMS)):
+            check_pairs(res, cfg['pairs'], cfg['ia'], ib, cuts)
+        res.sample({'concurrent_pairs': cfg['pairs'], 'stream_a': b2s(PAIR_STREAMS[cfg['ia']]), 'first_segment_sizes': list(cuts)})
+        return res.as_dict()
     fam, part, of = cfg['family'], cfg['part'], cfg['of']
     for idx, (mx, stream, hint, interesting) in enumerate(gen(fam, tier)):
         if idx % of != part:
@@ -844,6 +998,15 @@ def _one(mixin, stream, choices, wide, onebyte):
 
 
 def replay(rep):
+    if rep.get('pair'):
+        mixin, ia, ib, ca, cb = rep['pair']
+        sa, sb = PAIR_STREAMS[ia], PAIR_STREAMS[ib]
+        oa, ob = run_pair(mixin, sa, ca, sb, cb, Chooser(prefix=rep['choices']))
+        for name, o, st in (('A', oa, sa), ('B', ob, sb)):
+            solo, _ = execute(mixin, st, Chooser(), NOLIMIT, False, False)
+            if tuple(o[:5]) != tuple(solo[:5]):
+                return True, 'mixin=%s: connection %s got %r next to another connection, alone it gives %r' % (mixin, name, o, solo[:5])
+        return False, 'both connections get what they get alone'
     mixin, stream = rep['mixin'], s2b(rep['stream'])
     v = ref.PARSERS[mixin](stream)
     obs, sock = _one(mixin, stream, rep['choices'], rep['wide'], rep['onebyte'])
